@@ -7,6 +7,7 @@ SUP = 'beartype/door/_cls/doorsuper.py'
 META = 'beartype/door/_cls/doormeta.py'
 UNB = 'beartype/_util/cache/map/utilmapunbounded.py'
 UNI = 'beartype/door/_cls/pep/doorpep484604.py'
+ANN = 'beartype/door/_cls/pep/doorpep593.py'
 FLOOR_APPLIED = 7
 
 
@@ -39,6 +40,15 @@ VARIANTS = {
         t, lambda n: isinstance(n, ast.Try) and any(h.type is not None and 'TypeError' in ast.unparse(h.type) for h in n.handlers),
         lambda n: n.body, scope='CacheUnboundedStrong.cache_or_get_cached_func_return_passed_arg'), 'C19.R4',
         'TypeHint(Annotated[int, []]) raises a bare TypeError'),
+    # ---- R6 soundness of the branch tests ---------------------------------------------------------------
+    'annotated-metahints-compared-by-strict-superhint': tseeded(ANN, lambda t: replace_where(
+        t, lambda n: isinstance(n, ast.UnaryOp) and ast.unparse(n) == 'not self._metahint_wrapper.is_subhint(branch._metahint_wrapper)',
+        lambda n: expr('self._metahint_wrapper > branch._metahint_wrapper'), scope='_is_subhint_branch'), 'C19.R6',
+        'the defect repaired by the fix commit (F23), reintroduced: Annotated[int, v] is a subhint of Annotated[str, v]'),
+    'n-annotated-guards-merged': tneutral(ANN, lambda t: replace_where(
+        t, lambda n: isinstance(n, ast.UnaryOp) and ast.unparse(n) == 'not self._metahint_wrapper.is_subhint(branch._metahint_wrapper)',
+        lambda n: expr('not self._metahint_wrapper <= branch._metahint_wrapper'), scope='_is_subhint_branch'),
+        'the subhint test spelled as a comparison of wrappers'),
     # ---- neutral -----------------------------------------------------------------------------------------
     'n-roundtrip-doorsuper': roundtrip(SUP),
     'n-roundtrip-doormeta': roundtrip(META),
